@@ -165,7 +165,9 @@ func genSet(r *rand.Rand, withErrors bool, pal palette) ([]modSrc, genStats) {
 			}
 		}
 		if pal.leafList && r.Intn(2) == 0 {
-			fmt.Fprintf(b, "%sleaf-list ll { type string; }\n", ind)
+			// plain leaf-list (no ordered-by / min-elements / max-elements), often of a type
+			// with a default, so that DefaultValues falls back on the type
+			fmt.Fprintf(b, "%sleaf-list ll { type %s; }\n", ind, []string{"string", fmt.Sprintf("t%d", i), fmt.Sprintf("e%d", i)}[r.Intn(3)])
 		}
 		if pal.list && r.Intn(2) == 0 {
 			fmt.Fprintf(b, "%slist li { key k; leaf k { type string; } leaf v { %s } }\n", ind, leafType(i, others))
@@ -220,6 +222,15 @@ func genSet(r *rand.Rand, withErrors bool, pal palette) ([]modSrc, genStats) {
 		for c := 0; c < nc; c++ {
 			fmt.Fprintf(&b, "  container c%d {\n", c)
 			body(&b, i, others, 2, "    ")
+			if pal.deviation && c == 0 {
+				// directly written (not through uses or augment), without list statements of
+				// their own: the targets of min-/max-elements deviations, and in sets without
+				// such a deviation the plain lists whose attributes must stay untouched
+				fmt.Fprintf(&b, "    list dl { key k; leaf k { type string; } leaf w { type uint8; } }\n    leaf-list dll { type t%d; }\n", i)
+				if r.Intn(3) == 0 {
+					b.WriteString("    list dlo { key k; ordered-by user; min-elements 1; max-elements 5; leaf k { type string; } }\n")
+				}
+			}
 			if withErrors && i == 0 && c == 0 {
 				b.WriteString("    leaf bad0 { type nosuchtype; }\n    leaf bad1 { type p0:alsonot; }\n")
 			}
@@ -249,11 +260,23 @@ func genSet(r *rand.Rand, withErrors bool, pal palette) ([]modSrc, genStats) {
 			j := others[r.Intn(len(others))]
 			fmt.Fprintf(&b, "  augment \"/p%d:c0\" { leaf aug%d { type t%d; } container augc%d { leaf y { type string; } } }\n", j, i, i, i)
 		}
-		if pal.deviation && len(others) > 0 && r.Intn(2) == 0 {
-			// module i is the only one that deviates module i+1
+		if pal.deviation && len(others) > 0 && r.Intn(3) != 0 {
+			// module i is the only one that deviates module i+1; one to three deviations, each
+			// with a target of its own
 			st.deviations++
 			j := others[0]
-			fmt.Fprintf(&b, "  deviation \"/p%d:c0/p%d:l0\" { deviate not-supported; }\n", j, j)
+			for _, v := range r.Perm(4)[:1+r.Intn(3)] {
+				switch v {
+				case 0:
+					fmt.Fprintf(&b, "  deviation \"/p%d:c0/p%d:l0\" { deviate not-supported; }\n", j, j)
+				case 1:
+					fmt.Fprintf(&b, "  deviation \"/p%d:c0/p%d:dll\" { deviate add { min-elements %d; } }\n", j, j, 1+r.Intn(4))
+				case 2:
+					fmt.Fprintf(&b, "  deviation \"/p%d:c0/p%d:dl\" { deviate add { max-elements %d; } }\n", j, j, 5+r.Intn(5))
+				default:
+					fmt.Fprintf(&b, "  deviation \"/p%d:c0/p%d:dl/p%d:w\" { deviate replace { type string; } }\n", j, j, j)
+				}
+			}
 		}
 		b.WriteString("}\n")
 		out = append(out, modSrc{fmt.Sprintf("m%d.yang", i), b.String()})
@@ -351,6 +374,18 @@ func guard(f func() string) (s string) {
 	return f()
 }
 
+// listAttr renders the list attributes of a list / leaf-list ("-" for other nodes).
+func listAttr(e *yang.Entry) string {
+	if e.ListAttr == nil {
+		return "-"
+	}
+	ob := "-"
+	if e.ListAttr.OrderedBy != nil {
+		ob = e.ListAttr.OrderedBy.Name
+	}
+	return fmt.Sprintf("min%d/max%d/%s/user=%v", e.ListAttr.MinElements, e.ListAttr.MaxElements, ob, e.ListAttr.OrderedByUser)
+}
+
 func describe(e *yang.Entry) string {
 	return guard(func() string {
 		var b strings.Builder
@@ -360,7 +395,7 @@ func describe(e *yang.Entry) string {
 		}
 		im, err := e.InstantiatingModule()
 		fmt.Fprintf(&b, " im=%s/%v", im, err != nil)
-		fmt.Fprintf(&b, " def=%q", e.DefaultValues())
+		fmt.Fprintf(&b, " def=%q la=%s", e.DefaultValues(), listAttr(e))
 		if e.Type != nil {
 			fmt.Fprintf(&b, " type=%s/%v", e.Type.Name, e.Type.Kind)
 		}
@@ -543,7 +578,7 @@ func run(ms *yang.Modules, roots map[string]*yang.Entry, o op) string {
 			return fmt.Sprint(e.ReadOnly())
 		case "dv":
 			s, ok := e.SingleDefaultValue()
-			return fmt.Sprintf("%q %q %v", e.DefaultValues(), s, ok)
+			return fmt.Sprintf("%q %q %v la=%s", e.DefaultValues(), s, ok, listAttr(e))
 		case "find-rel":
 			got := roots[o.Mod].Find(o.Arg)
 			if got != e {
@@ -628,6 +663,8 @@ type roundResult struct {
 	UnexpectedErrs bool     `json:"unexpected_errors"`
 	SeqAnomalies   int      `json:"sequential_anomalies"`
 	Kinds          []string `json:"kinds"` // optional statement kinds the sets of this round may use
+	// Canary: not a round but the check at the end of a process (see canarySet)
+	Canary bool `json:"canary,omitempty"`
 }
 
 func roundSeed(seed int64, round int) int64 { return seed*1000003 + int64(round)*7919 + 17 }
@@ -817,6 +854,43 @@ func showRound(seed int64, round, batch int) {
 // ---------------------------------------------------------------------------------------------
 // child / parent
 
+// canarySet is a fixed module set that uses every statement kind and, in a module of its own,
+// plain lists and leaf-lists (no list statements, a type with a default).  A fresh process that
+// does nothing else dumps it ("processed alone"); every child process dumps it again after its
+// last round.  The two dumps must be equal: module sets share nothing, so whatever other sets were
+// processed before or alongside must not show.  (It runs after the last round only, because it
+// converts every statement kind and would spoil the cold introduction of kinds otherwise.)
+func canarySet() []modSrc {
+	full := palette{true, true, true, true, true, true, true, true, true, true, true, true}
+	set, _ := genSet(rand.New(rand.NewSource(424242)), false, full)
+	return append(set, modSrc{"plain.yang", `module plain {
+  yang-version 1.1;
+  namespace "urn:plain";
+  prefix pl;
+  typedef t { type string; default "x"; }
+  container c {
+    leaf-list ll { type t; }
+    list l { key k; leaf k { type string; } }
+    leaf-list lo { type t; ordered-by user; }
+    list lm { key k; min-elements 2; max-elements 4; leaf k { type string; } }
+  }
+}
+`})
+}
+
+// canaryFile: path of the dump of canarySet made by a fresh process ("" = no check)
+var canaryFile string
+
+func firstDiff(a, b string) string {
+	la, lb := strings.Split(a, "\n"), strings.Split(b, "\n")
+	for i := 0; i < len(la) && i < len(lb); i++ {
+		if la[i] != lb[i] {
+			return fmt.Sprintf("line %d: alone %q, here %q", i+1, la[i], lb[i])
+		}
+	}
+	return fmt.Sprintf("%d lines alone, %d lines here", len(la), len(lb))
+}
+
 func child(seed int64, from, to, n, batch int) {
 	debug.SetTraceback("single")
 	enc := json.NewEncoder(os.Stdout)
@@ -824,6 +898,61 @@ func child(seed int64, from, to, n, batch int) {
 		fmt.Fprintf(os.Stderr, "@round %d\n", round)
 		enc.Encode(doRound(seed, round, n, batch))
 	}
+	if canaryFile != "" {
+		want, err := os.ReadFile(canaryFile)
+		if err != nil {
+			lib.Fatal("canary: %v", err)
+		}
+		rr := roundResult{Round: to - 1, Canary: true, Evals: 1}
+		if got := pipeline(canarySet()); got != string(want) {
+			rr.Problems = []string{"INDEPENDENCE: the canary module set processed in this process after its rounds differs from the same set processed alone in a fresh process: " + firstDiff(string(want), got)}
+		}
+		enc.Encode(rr)
+	}
+}
+
+// makeCanary lets a fresh process dump the canary set and stores the dump in a temporary file.
+func makeCanary() string {
+	self, err := os.Executable()
+	if err != nil {
+		lib.Fatal("executable: %v", err)
+	}
+	out, err := exec.Command(self, "-canary").Output()
+	if err != nil || len(out) == 0 {
+		lib.Fatal("canary process: %v", err)
+	}
+	f, err := os.CreateTemp("", "c19-canary-*.txt")
+	if err != nil {
+		lib.Fatal("%v", err)
+	}
+	f.Write(out)
+	f.Close()
+	return f.Name()
+}
+
+// canaryProblem: the problem reported by the end-of-process check of a batch, if any.
+func canaryProblem(o batchOutcome) string {
+	for _, rr := range o.results {
+		if rr.Canary && len(rr.Problems) > 0 {
+			return rr.Problems[0]
+		}
+	}
+	return ""
+}
+
+// culprit finds the first round r of the batch such that a process running rounds from..r ends
+// with a differing canary (the state change is lasting, so prefixes are monotone).
+func culprit(seed int64, from, to, n, batch int) int {
+	lo, hi := from, to-1 // the answer is in [lo, hi]; hi is known to fail
+	for lo < hi {
+		mid := (lo + hi) / 2
+		if canaryProblem(runBatch(seed, from, mid+1, n, batch, 10*time.Minute)) != "" {
+			hi = mid
+		} else {
+			lo = mid + 1
+		}
+	}
+	return lo
 }
 
 type batchOutcome struct {
@@ -840,7 +969,7 @@ func runBatch(seed int64, from, to, n, batch int, limit time.Duration) batchOutc
 		lib.Fatal("executable: %v", err)
 	}
 	cmd := exec.Command(self, "-child", "-seed", fmt.Sprint(seed), "-from", fmt.Sprint(from), "-to", fmt.Sprint(to), "-n", fmt.Sprint(n),
-		"-batch", fmt.Sprint(batch))
+		"-batch", fmt.Sprint(batch), "-canaryfile", canaryFile)
 	cmd.Env = append(os.Environ(), "GORACE=halt_on_error=1 exitcode=66")
 	var so, se bytes.Buffer
 	cmd.Stdout, cmd.Stderr = &so, &se
@@ -914,6 +1043,8 @@ type replayInfo struct {
 
 func main() {
 	isChild := flag.Bool("child", false, "run rounds [from,to) in this process (internal)")
+	isCanary := flag.Bool("canary", false, "dump the canary module set in this (fresh) process and exit (internal)")
+	flag.StringVar(&canaryFile, "canaryfile", "", "dump of the canary set made by a fresh process (internal)")
 	show := flag.Int("show", -1, "print the generated shared module set of this round, the reader script and the sequential answers")
 	from := flag.Int("from", 0, "")
 	to := flag.Int("to", 0, "")
@@ -922,6 +1053,10 @@ func main() {
 	rounds := flag.Int("rounds", 0, "rounds (default 200 quick / 20000 thorough)")
 	parFlag := flag.Int("par", 0, "child processes at a time (default 4 quick / 12 thorough)")
 	f := lib.ParseFlags()
+	if *isCanary {
+		os.Stdout.WriteString(pipeline(canarySet()))
+		return
+	}
 	if *isChild {
 		child(f.Seed, *from, *to, *nflag, *batchFlag)
 		return
